@@ -7,3 +7,6 @@ import ReuseVerif.Model.Glob
 import ReuseVerif.Spec.Glob
 import ReuseVerif.Model.Dep5
 import ReuseVerif.Spec.Dep5
+import ReuseVerif.Model.BoolExpr
+import ReuseVerif.Model.SpdxDoc
+import ReuseVerif.Spec.SpdxDoc
